@@ -135,4 +135,30 @@ THEOREM NoMixtureAlways == Spec => []NoMixture
     BY DEF IndInv
 <1> QED
     BY <1>1, <1>2, <1>3, PTL DEF Spec
+
+(* C20's all-or-nothing clause as an action property, for arbitrary argument sets: the disk changes
+   only at Commit, and then to the complete working copy *)
+AtomicStep == disk' = disk \/ (~Idle /\ txn.pc = NW /\ disk' = txn.work)
+
+LEMMA NextIsAtomic == [Next]_vars => AtomicStep
+<1> SUFFICES ASSUME [Next]_vars PROVE AtomicStep
+    OBVIOUS
+<1>1. CASE UNCHANGED vars
+    BY <1>1 DEF vars, AtomicStep
+<1>2. ASSUME NEW c \in Commands, Begin(c) \/ Doomed(c) PROVE AtomicStep
+    BY <1>2 DEF Begin, Doomed, AtomicStep
+<1>3. ASSUME NEW c \in ReadOnly, Read(c) \/ ReadFails(c) PROVE AtomicStep
+    BY <1>3 DEF Read, ReadFails, AtomicStep
+<1>4. CASE Write \/ Fail \/ Kill
+    BY <1>4 DEF Write, Fail, Kill, AtomicStep
+<1>5. CASE Commit
+    BY <1>5 DEF Commit, AtomicStep
+<1> QED
+    BY <1>1, <1>2, <1>3, <1>4, <1>5 DEF Next
+
+THEOREM AtomicAlways == Spec => Atomic
+<1>1. [Next]_vars => AtomicStep
+    BY NextIsAtomic
+<1> QED
+    BY <1>1, PTL DEF Spec, Atomic, AtomicStep
 =============================================================================
